@@ -65,6 +65,20 @@ class Unknown(Value):
 
 
 @dataclass
+class Closure(Value):
+    """A function defined inside the function being interpreted (def or
+    lambda); called in the defining frame's environment."""
+    node: object = None
+    frame: object = None
+
+    def __repr__(self):
+        return f"Closure({getattr(self.node, 'name', 'lambda')})"
+
+    def __deepcopy__(self, memo):
+        return self
+
+
+@dataclass
 class Shared(Value):
     owner: str
     slot: str
@@ -142,7 +156,8 @@ class ClassMap(Value):
 
 
 def depth(v: Value) -> int:
-    if v is IMM or v is DEEPV or isinstance(v, (Const, ClassRef, ClassMap)):
+    if v is IMM or v is DEEPV or isinstance(v, (Const, ClassRef, ClassMap,
+                                                Closure)):
         return INF
     if isinstance(v, Unknown):
         return -1
@@ -541,7 +556,9 @@ class Frame:
                              ast.ImportFrom, ast.Global, ast.Nonlocal)):
             if isinstance(st, (ast.Break, ast.Continue)):
                 self.dead = True
-        elif isinstance(st, (ast.FunctionDef, ast.ClassDef)):
+        elif isinstance(st, ast.FunctionDef):
+            self.env[st.name] = Closure(st, self)
+        elif isinstance(st, ast.ClassDef):
             self.env[st.name] = IMM
         elif isinstance(st, ast.Match):
             for case in st.cases:
@@ -590,6 +607,8 @@ class Frame:
         if isinstance(base, Cont):
             if isinstance(v, Cont):
                 base.kinds.add(v.cname)
+            elif isinstance(v, Unknown):
+                base.kinds.add("<unknown>")
             if depth(v) < depth(base.inner):
                 base.inner = v
                 base.why = self.site(st)
@@ -692,7 +711,7 @@ class Frame:
         return IMM
 
     def ev_Lambda(self, e):
-        return IMM
+        return Closure(e, self)
 
     def ev_Tuple(self, e):
         return Tup([self.ev(x.value if isinstance(x, ast.Starred) else x)
@@ -752,7 +771,8 @@ class Frame:
             return fr.ev(e.value)
         v = self._comp(e, f)
         return Cont(True, v if depth(v) < INF else DEEPV, why=self.site(e),
-                    kinds={v.cname} if isinstance(v, Cont) else set())
+                    kinds={v.cname} if isinstance(v, Cont) else (
+                        {"<unknown>"} if isinstance(v, Unknown) else set()))
 
     def ev_IfExp(self, e):
         t = self.truth(e.test)
@@ -940,6 +960,9 @@ class Frame:
                 kwargs[k.arg] = v
 
         name = dotted(f)
+        # local function / lambda
+        if isinstance(f, ast.Name) and isinstance(self.env.get(f.id), Closure):
+            return self.call_closure(self.env[f.id], args, kwargs)
         # super().m(...)
         if isinstance(f, ast.Attribute) and isinstance(f.value, ast.Call) \
                 and call_name(f.value) == "super":
@@ -1064,6 +1087,40 @@ class Frame:
             if target is not None:
                 return self.I.exec_func(target, None, None, args, kwargs)
         return self.external_call(name, args, kwargs, e)
+
+    def call_closure(self, c: "Closure", args, kwargs) -> Value:
+        node = c.node
+        if len(self.I.stack) >= self.I.max_depth:
+            return Unknown("closure depth")
+        a = node.args
+        if a.vararg or a.kwarg:
+            return Unknown("closure with star parameters")
+        params = [x.arg for x in a.posonlyargs + a.args]
+        env = dict(c.frame.env)        # free variables: the defining frame
+        defaults = dict(zip(params[len(params) - len(a.defaults):],
+                            a.defaults))
+        pos = list(args)
+        for p in params:
+            if pos:
+                env[p] = pos.pop(0)
+            elif p in kwargs:
+                env[p] = kwargs[p]
+            elif p in defaults:
+                env[p] = c.frame.ev(defaults[p])
+            else:
+                env[p] = Unknown(f"missing argument {p}")
+        for p, d in zip(a.kwonlyargs, a.kw_defaults):
+            env[p.arg] = kwargs.get(p.arg) or (
+                c.frame.ev(d) if d is not None else Unknown("missing kw"))
+        sub = Frame(self.I, self.fi, self.cls_ctx, env)
+        self.I.stack.append(f"{self.fi.qual}.<local>")
+        try:
+            if isinstance(node, ast.Lambda):
+                return sub.ev(node.body)
+            sub.block(node.body)
+        finally:
+            self.I.stack.pop()
+        return sub.result()
 
     def resolve_function(self, name: str) -> FuncInfo | None:
         # same module first, then imported-from modules
